@@ -60,7 +60,7 @@ example : ∃ q1 q2 q3, immRegister {} 1 5 = some q1 ∧ immRegister q1 2 3 = so
     * is never negative, and is 0 exactly when the timer is due (no blocking then; no busy loop before).
 
     Before the repair of finding F12 (`notes/F12-fix.md`) the first clause was false: with 2147483 s and
-    1 … 999999 µs left the code asked for `INT_MAX` = 2147483647 ms, up to 647 ms beyond the deadline. -/
+    0 … 646000 µs left the code asked for `INT_MAX` = 2147483647 ms, up to 647 ms beyond the deadline. -/
 theorem select_timeout_ceil (clock dl : Nat) :
     let t := selectTimeout (some (timerDiff clock ((dl / 1000000 : Nat) : Int) ((dl % 1000000 : Nat) : Int)))
     t ≤ C05.ceilMs (dl - clock) ∧
@@ -154,7 +154,7 @@ example :
     hypothesis that no time passes during an EINTR.  Likewise for finding F12 (`notes/F12-fix.md`): the
     monitor's `ceilMs` is plain rounding up with no upper limit, and the model's `tv2ms` saturates to
     2147483000 ms; for the code before that repair (`INT_MAX` ms from 2147483 s on) the statement was
-    false for every timer 2147483 s + 1 … 999999 µs ahead. -/
+    false for every timer 2147483 s + 0 … 646000 µs ahead. -/
 theorem run_admissible_C05 (C : TQContract) (fuel : Nat) (prog : List Top) :
     C05.admissible (run fuel prog) = true :=
   run_admissible C fuel prog
